@@ -20,6 +20,7 @@ import (
 	"fmt"
 	"os"
 	"path/filepath"
+	"runtime/debug"
 	"sort"
 	"strings"
 	"testing"
@@ -139,6 +140,56 @@ func (h *storeHandle) close() {
 	h.inner.Close(newCtx())
 	if h.dir != "" {
 		os.RemoveAll(h.dir)
+	}
+}
+
+// c06HandedOut: what Load hands back (keys and values) stays intact while
+// later writes to the same storage proceed - here: every loaded record is
+// removed and others are written, in this location and in another one.
+func c06HandedOut(st core.Storage, kind string, o *vlib.Outcome) {
+	ctx := newCtx()
+	pairs, err := st.Load(ctx, "L")
+	if err != nil || len(pairs) == 0 {
+		return
+	}
+	type kv struct{ k, v string }
+	want := make([]kv, len(pairs))
+	for i, p := range pairs {
+		want[i] = kv{string(p.K), string(p.V)}
+	}
+	o.Label("handed-out-data-vs-later-writes")
+	// (reading a mapping that is gone is a failure of this case, not the
+	// end of the process)
+	defer debug.SetPanicOnFault(debug.SetPanicOnFault(true))
+	defer func() {
+		if r := recover(); r != nil {
+			o.Fail("LOADED_DATA_CLOBBERED", "[%s] the records handed out by Load cannot be read any more after later writes: %v", kind, r)
+		}
+	}()
+	for round := 0; round < 6; round++ {
+		for i, w := range want {
+			if round == 0 {
+				if _, err := st.Remove(ctx, "L", []byte(w.k)); err != nil {
+					return
+				}
+			} else {
+				st.Remove(ctx, "L", []byte(fmt.Sprintf("later-%02d-%03d", round-1, i)))
+			}
+			k := fmt.Sprintf("later-%02d-%03d", round, i)
+			v := fmt.Sprintf(`{"later":"%04d","pad":"%s"}`, round*len(want)+i, strings.Repeat("p", len(w.v)))
+			if err := st.Add(ctx, "L", &core.Pair{K: []byte(k), V: []byte(v)}); err != nil {
+				return
+			}
+			if err := st.Add(ctx, "elsewhere", &core.Pair{K: []byte(k), V: []byte(v)}); err != nil {
+				return
+			}
+		}
+		for i, p := range pairs {
+			if string(p.K) != want[i].k || string(p.V) != want[i].v {
+				o.Fail("LOADED_DATA_CLOBBERED", "[%s] record %d handed out by Load was (%q, %q) and reads (%q, %q) after round %d of later writes to the same storage", kind, i, want[i].k, want[i].v, string(p.K), string(p.V), round)
+				return
+			}
+		}
 	}
 }
 
@@ -263,6 +314,9 @@ func runC06(c c06Case) *vlib.Outcome {
 	}
 	callsBefore[len(ops)], writesBefore[len(ops)] = fs.calls, fs.writes
 	totalCalls, totalWrites := fs.calls, fs.writes
+	if !o.Failed() {
+		c06HandedOut(h.inner, c.Store, o)
+	}
 	h.close()
 	if o.Failed() {
 		return o
